@@ -239,6 +239,25 @@ ADDENDA9 = {
 for _k, _v in ADDENDA9.items():
     CLAIMS[_k]["text"] = CLAIMS[_k]["text"].rstrip() + " " + _v
 
+# structural clauses added in round 10 (DESIGN.md §4 "Additions of round 10")
+ADDENDA10 = {
+    "C01": "Round 10: every statement of an evaluation core belongs to a phase of the generic core or to the driver loop (CL-1).",
+    "C03": "Round 10: CL-1 accounts for every statement of a core; each path selects its kernels from the selector alone (CL-4, evaluated over every mask and derivative order).",
+    "C05": "Round 10: nothing happens inside an assertion (AS-2).",
+    "C06": "Round 10: the reader locates KNOTS<i> and EXTENTS by name, never by position (FS-14).",
+    "C07": "Round 10: a single first-pixel index is handed to fits_read_pix only for an image tested to have one axis (VG-2f; defect D66 repaired); the dimension count is bounded by what cfitsio's pixel interface handles (VG-2g; D67 repaired).",
+    "C09": "Round 10: the right-hand side handed to the solver has a value in every entry (GW-9).",
+    "C10": "Round 10: GW-9; entries of the normal matrix are dropped only below machine epsilon (SP-8).",
+    "C11": "Round 10: SP-8; leaving the outer loop on the iteration cap is not separated from convergence in any block solver (SG-9: known findings D69 — nnls_normal_block3 cycles with period 2 — and D70).",
+    "C12": "Round 10: no lock, wait or store hides inside an assertion, which the NDEBUG build does not compile (AS-2).",
+    "C13": "Round 10: each scalar argument is broadcast by its own length (GW-1, now also here).",
+    "C14": "Round 10: the scratch array the transfer matrix is multiplied into starts from zero (UW-10).",
+    "C16": "Round 10: a stored key or value is never modified in place (KM-5).",
+    "C20": "Round 10: a container argument subscripted at a fixed position is refused unless it is long enough (KB-10; defect D68 in the stacking constructor repaired).",
+}
+for _k, _v in ADDENDA10.items():
+    CLAIMS[_k]["text"] = CLAIMS[_k]["text"].rstrip() + " " + _v
+
 NOT_APPLICABLE = {
 }
 
